@@ -11,11 +11,12 @@ QUICK = (
     pick("C02", r"table\.(set\.home[024]|rem\.home[14])\.ns5|table\.(del|clearset)\.ns5|table\.init", tiers=("quick",))
     + pick("C03", r"tree\.(set|rem|clear)\.q[2-5]$", tiers=("quick",))
     + pick("C04", r"array\.(push|pop|rem|resize|sort|del|getset)\.n[23]|array\.(concat|assign)\.n2\+1\.m[12]|array\.(push_at|pop_at)\.n2\+1\.i(0|1|-1)$", tiers=("quick",))
+    + pick("C04", r"list\.(push|pop|push_at|pop_at|getset|rem|resize|del)\.n[23]$|list\.(concat|assign)\.n2\.m[12]|list\.bad_index\.n2", tiers=("quick",))
 )
 THOROUGH = (
     pick("C02", r"table\.(set|rem|del|clearset|rehash|resize)\.", tiers=("thorough",))
     + pick("C03", r"tree\.(set|rem|clear)\.(q|t)", tiers=("thorough",))
-    + pick("C04", r"array\.(push|pop|push_at|pop_at|getset|rem|concat|resize|sort|assign|del)\.", tiers=("thorough",))
+    + pick("C04", r"(array|list)\.(push|pop|push_at|pop_at|getset|rem|concat|resize|sort|assign|del|bad_index)\.", tiers=("thorough",))
 )
 OBLIGATIONS = QUICK + [o for o in THOROUGH]
 for o in THOROUGH:
@@ -23,4 +24,4 @@ for o in THOROUGH:
 LEVEL_TEXT = ("Bounded model checking: the same inductive-step obligations as C02/C03/C04, selected for their ownership-ledger assertions (every stored element holds a distinct live token, "
               "replaced/removed/cleared elements retired exactly once, moves carry tokens, copies issue new ones), within the same slot-count / node-count / length bounds.")
 LEVEL_NOTE = ("Trusted: cbmc; the probe element stands for any element type with its own constructor/assignment/destructor; element types whose destructor re-enters the container are out; "
-              "List and Tuple (which holds references, not elements) are not covered; Box ownership is exercised through the collector in C06.")
+              "Tuple holds references, not elements, and is not part of the ledger; Box ownership is exercised through the collector in C06.")
